@@ -2,51 +2,67 @@
    Only statements, closed by [exact], with Print Assumptions.  Model: Model/Scan.v (Scanner.Scan of
    pkg/sql/security/scanner.go as written: ast.Inspect over each statement applying the local detectors, every
    append guarded by shouldInclude, then updateCounts) over query trees traversed with the regenerated Children()
-   table ([em], Gen/QSlots.v).  Positions: Model/ScanRef.v ([subs s] = every expression / statement position of a
-   reference-grammar statement; a payload p in a one-hole context C is [In p (subs (plug C p))]).
+   table ([em], Gen/QSlots.v), started from the statements [scan_root] admits ([scan_roots]; Gen/QRoots.v, probed on
+   the compiled Scan each run: every statement kind of the grammar, Inst_C16.roots_cover_ok).
+   Positions: Model/ScanRef.v ([subs s] = every expression / statement position of a reference-grammar statement,
+   at ANY depth — structural recursion, no bound; a payload p in a one-hole context C is [In p (subs (plug C p))]).
+   The grammar includes the statements that carry a query or an expression without being queries (CREATE VIEW /
+   MATERIALIZED VIEW ... AS query, CREATE INDEX ... WHERE cond, CREATE TABLE with DEFAULT / CHECK).
    Layout (letter case of keywords, whitespace, redundant parentheses) leaves no trace in the tree the scan reads
    (checked by the tie: prescribed tree = parsed tree of every rendering); the detectors compare operator and
    function names case-insensitively (hypotheses [upper op = ...] below).
    ScanSQL's regular expressions are not modelled (Go regexp): exercised by the oracle only. *)
 From Coq Require Import List String NArith Bool Arith.
 From GV Require Import Model.Walk Model.QAst Model.QRef Model.Scan Model.ScanRef Proofs.QAstP Proofs.ExtractP Proofs.ScanP
-  Gen.ChildrenTable Gen.QSlots Inst.Inst_C15.
+  Gen.ChildrenTable Gen.QSlots Gen.QRoots Inst.Inst_C15 Inst.Inst_C16.
 Import ListNotations.
 Local Open Scope string_scope.
 Local Open Scope list_scope.
 
 (* raising the minimum severity removes exactly the findings below it (order and multiplicity kept) *)
 Theorem C16_threshold_filter : forall m stmts,
-  scan_findings em m stmts = filter (keeps m) (scan_findings em (Some Low) stmts).
-Proof. exact (threshold_filter em). Qed.
+  scan_findings em scan_root m stmts = filter (keeps m) (scan_findings em scan_root (Some Low) stmts).
+Proof. exact (threshold_filter em scan_root). Qed.
 
 (* total and per-severity counts equal the findings listed *)
 Theorem C16_counts_consistent : forall m stmts,
-  let (fs, c) := scan em m stmts in
+  let (fs, c) := scan em scan_root m stmts in
   c_total c = List.length fs /\
   c_critical c = count_sev Critical fs /\ c_high c = count_sev High fs /\
   c_medium c = count_sev Medium fs /\ c_low c = count_sev Low fs /\
   c_critical c + c_high c + c_medium c + c_low c = c_total c.
-Proof. exact (counts_consistent em). Qed.
+Proof. exact (counts_consistent em scan_root). Qed.
 
 (* the scan is a function of the tree (the model has no state and returns no tree): scanning a sequence of
    statements is scanning each; the implementation side (tree unchanged, long-lived Scanner) is checked by the tie *)
-Theorem C16_scan_pure : forall m a b, scan_findings em m (a ++ b) = scan_findings em m a ++ scan_findings em m b.
-Proof. exact (scan_pure em). Qed.
+Theorem C16_scan_pure : forall m a b, scan_findings em scan_root m (a ++ b) = scan_findings em scan_root m a ++ scan_findings em scan_root m b.
+Proof. exact (scan_pure em scan_root). Qed.
 
 (* every position of every reference statement is visited (C14 completeness on the prescribed tree) *)
 Theorem C16_position_visited : forall s x, In x (subs s) -> In (ast_sub x) (qwalk em (ast_stmt s)).
 Proof. exact (position_visited em em_covers_ok). Qed.
 
+(* the scan starts from every statement of the grammar, whatever its type (CREATE VIEW ... included) *)
+Theorem C16_statement_is_root : forall s : mstmt, scan_roots scan_root [ast_stmt s] = [ast_stmt s].
+Proof. exact (statement_is_root scan_root roots_cover_ok). Qed.
+
 (* context closure: what the detectors report on the payload they report in EVERY context, every threshold *)
 Theorem C16_context_closed : forall m s x f,
-  In x (subs s) -> In f (local_findings m (ast_sub x)) -> In f (scan_findings em m [ast_stmt s]).
-Proof. exact (context_closed em em_covers_ok). Qed.
+  In x (subs s) -> In f (local_findings m (ast_sub x)) -> In f (scan_findings em scan_root m [ast_stmt s]).
+Proof. exact (context_closed em em_covers_ok scan_root roots_cover_ok). Qed.
+
+(* Historical: EXPLAIN q / DESCRIBE q was parsed to DescribeStatement{TableName: "SELECT"} — the query parsed and thrown
+   away ([explain_pinned]), so a payload written in it had a position in the statement and no node in the tree.
+   Repaired in /repo c61589e (DescribeStatement.Query); [MExplain] is prescribed with the query since. *)
+Theorem C16_explain_query_dropped_refuted :
+  exists q x f, In x (subs (MExplain q)) /\ In f (local_findings (Some Low) (ast_sub x)) /\
+                ~ In f (scan_findings em scan_root (Some Low) [explain_pinned]).
+Proof. exact (explain_query_dropped em scan_root). Qed.
 
 (* nothing is reported that no node of the tree produces *)
 Theorem C16_findings_sound : forall m t f,
-  In f (scan_findings em m [t]) -> exists n, qreach em t n /\ In f (local_findings m n).
-Proof. exact (findings_sound em). Qed.
+  In f (scan_findings em scan_root m [t]) -> exists n, qreach em t n /\ In f (local_findings m n).
+Proof. exact (findings_sound em scan_root). Qed.
 
 (* the documented payloads, on the payload node (any letter case of the operator / function name) *)
 Theorem C16_literal_tautology : forall m op v t1 t2,
@@ -84,7 +100,9 @@ Print Assumptions C16_threshold_filter.
 Print Assumptions C16_counts_consistent.
 Print Assumptions C16_scan_pure.
 Print Assumptions C16_position_visited.
+Print Assumptions C16_statement_is_root.
 Print Assumptions C16_context_closed.
+Print Assumptions C16_explain_query_dropped_refuted.
 Print Assumptions C16_findings_sound.
 Print Assumptions C16_literal_tautology.
 Print Assumptions C16_column_tautology.
@@ -107,12 +125,44 @@ Definition ex_scan : mstmt :=
     (TCons (TSub (sel1 (OSome (MBin "or" (MCol "" (mkName "b" eq_refl)) p_taut)) (TCons (TName (mkT "t3" eq_refl) "") TNil) JNil) "zal1") TNil)
     (JCons "LEFT" (TName (mkT "cte1" eq_refl) "") (OSome (MBin "=" (MCol "zal1" (mkName "a" eq_refl)) (MCol "cte1" (mkName "a" eq_refl)))) JNil)
     ONone ENil ONone ENil.
-Example ex_scan_low : map fcode (scan_findings em (Some Low) [ast_stmt ex_scan]) = [10; 3; 3]%N.
+Example ex_scan_low : map fcode (scan_findings em scan_root (Some Low) [ast_stmt ex_scan]) = [10; 3; 3]%N.
 Proof. vm_compute. reflexivity. Qed.
-Example ex_scan_critical : map fcode (scan_findings em (Some Critical) [ast_stmt ex_scan]) = [3; 3]%N.
+Example ex_scan_critical : map fcode (scan_findings em scan_root (Some Critical) [ast_stmt ex_scan]) = [3; 3]%N.
 Proof. vm_compute. reflexivity. Qed.
-Example ex_scan_counts : snd (scan em (Some Low) [ast_stmt ex_scan]) = mkC 3 2 1 0 0.
+Example ex_scan_counts : snd (scan em scan_root (Some Low) [ast_stmt ex_scan]) = mkC 3 2 1 0 0.
 Proof. vm_compute. reflexivity. Qed.
 Example ex_join_condition_not_tautology :   (* zal1.a = cte1.a is a join condition, not col = col *)
   is_tautology (ast_expr (MBin "=" (MCol "zal1" (mkName "a" eq_refl)) (MCol "cte1" (mkName "a" eq_refl)))) = false.
+Proof. vm_compute. reflexivity. Qed.
+
+(* ---- non-vacuity, statements that carry a query / an expression: the payload is reported from inside a view body,
+   a materialized view body, a partial-index predicate, a column DEFAULT, a table CHECK, an explained query ---- *)
+Definition t1 : mtrefs := TCons (TName (mkT "t1" eq_refl) "") TNil.
+Definition ex_carriers : list mstmt :=
+  [MCreateView (mkT "zs.zv" eq_refl) ["zc1"] (sel1 (OSome p_taut) t1 JNil);
+   MCreateMView (mkT "zmv" eq_refl) [] (MSetOp "UNION" (sel1 ONone t1 JNil) (sel1 (OSome p_sleep) t1 JNil));
+   MCreateIndex (mkT "zi" eq_refl) (mkT "t1" eq_refl) [mkName "zk1" eq_refl] (OSome (MBin "AND" p_sleep p_taut));
+   MCreateTable (mkT "zt" eq_refl)
+     (DCons (mkName "zk1" eq_refl) "INT" (XPlain "NOT NULL" (XDefault (MFunc (mkName "SLEEP" eq_refl) (ECons (MLit "5" "int") ENil)) XNil)) DNil)
+     (YPlain "UNIQUE" ["zk1"] (YCheck p_taut YNil));
+   MExplain (sel1 (OSome p_taut) t1 JNil)].
+Example ex_carriers_low :
+  map (fun s => map fcode (scan_findings em scan_root (Some Low) [ast_stmt s])) ex_carriers = [[3]; [10]; [10; 3]; [10; 3]; [3]]%N.
+Proof. vm_compute. reflexivity. Qed.
+Example ex_carriers_are_roots : forallb (fun s => scan_root (q_kind (ast_stmt s))) ex_carriers = true.
+Proof. vm_compute. reflexivity. Qed.
+
+(* ---- non-vacuity, depth: a flat chain p OR c = 7 OR c = 7 ... of 300 operands is a tree 300 levels deep; the payload
+   is its FIRST operand (the deepest node): reported by its own node and by the OR node above it ---- *)
+Fixpoint or_chain (n : nat) (first : mexpr) : mexpr :=
+  match n with
+  | O => first
+  | S k => MBin "OR" (or_chain k first) (MBin "=" (MCol "" (mkName "c" eq_refl)) (MLit "7" "int"))
+  end.
+Example ex_chain_300 :
+  map fcode (scan_findings em scan_root (Some Critical) [ast_stmt (sel1 (OSome (or_chain 300 p_taut)) t1 JNil)]) = [3; 3]%N.
+Proof. vm_compute. reflexivity. Qed.
+Example ex_chain_300_in_view :
+  map fcode (scan_findings em scan_root (Some Low)
+               [ast_stmt (MCreateView (mkT "zv" eq_refl) [] (sel1 (OSome (or_chain 300 p_sleep)) t1 JNil))]) = [10]%N.
 Proof. vm_compute. reflexivity. Qed.
